@@ -125,7 +125,13 @@ func skeleton(p []byte) []string {
 	var out []string
 	for _, s := range oracle.ScanANSI(p) {
 		if s.Esc {
-			out = append(out, s.Text)
+			if s.SGR {
+				// which colour the library chose is not this clause's business (and for levels without a
+				// registered colour it is whatever C09 says); that an SGR sequence is there is.
+				out = append(out, "SGR")
+			} else {
+				out = append(out, s.Text)
+			}
 			continue
 		}
 		for i := 0; i < len(s.Text); i++ {
